@@ -260,6 +260,15 @@ def check(case, ctx):
                 if d in f_.dims:
                     f_.axes[d].values = f_.axes[d].values.astype(object)
             ctx.outcomes['sort_axis-object-dtype-numbers'] += 1
+        elif zlib.crc32(repr(dsp["axes"][d][0]).encode()) % 4 == 1 and ds.axes[d].size >= 2:
+            # a non-increasing axis with tied labels (60, 30, 30, 0): records at equal labels keep the order the variable's own sort gives them
+            tv_ = np.sort(ds.axes[d].values)[::-1].copy()
+            tv_[1 + (len(tv_) > 2)] = tv_[0 + (len(tv_) > 2)]
+            ds.axes[d].values = tv_
+            for f_ in free.values():
+                if d in f_.dims:
+                    f_.axes[d].values = tv_.copy()
+            ctx.outcomes['sort_axis-nonincreasing-with-ties'] += 1
     dimpos = list(ds.dims).index(d) if d in ds.dims else None
     axis = dimpos if case["by_pos"] and dimpos is not None else d
     lab, kind = dsp["axes"][d]
